@@ -6,7 +6,24 @@ using namespace vpk;
 
 static Json::Value gen() {
   KillOpts o;
-  return genKillScenario(o);
+  Json::Value sc = genKillScenario(o);
+  // a prekill hook that takes several ticks: the cgroup oomd selected may be removed and another one
+  // created under its path meanwhile - that one was never selected
+  if (P(25)) {
+    Json::Value h(Json::objectValue);
+    h["name"] = "vp_hook";
+    h["args"]["id"] = "h0";
+    h["args"]["cgroup"] = P(70) ? "/" : "*,*/*,*/*/*";
+    sc["config"]["prekill_hooks"].append(h);
+    Json::Value polls(Json::arrayValue);
+    int n = R(1, 3);
+    for (int i = 0; i < n; i++) polls.append(P(20) ? 0 : R(1, 4));
+    sc["scripts"]["hooks"]["h0"]["polls"] = polls;
+    for (auto& rs : sc["config"]["rulesets"])
+      if (P(80)) rs["prekill_hook_timeout"] = std::to_string(R(5, 60));
+    sc["meta"]["hook"] = true;
+  }
+  return sc;
 }
 
 static Verdict run(const Json::Value& sc) {
@@ -25,6 +42,8 @@ static Verdict run(const Json::Value& sc) {
   auto invs = segment(R);
   const Json::Value& rulesets = sc["config"]["rulesets"];
   bool sawSignal = false;
+  // the cgroup a prekill hook was fired for is the one oomd selected: (ruleset) -> path, inode
+  std::map<int, std::pair<std::string, uint64_t>> hookedFor;
   for (auto& inv : invs) {
     if (inv.rs >= (int)rulesets.size() || inv.tick < 0 || inv.tick >= (int)R.worlds.size()) continue;
     const Json::Value& args = killActionOf(rulesets[inv.rs])["args"];
@@ -50,8 +69,19 @@ static Verdict run(const Json::Value& sc) {
       v.fail("side effect (" + e->k + " " + e->p + ") outside any victim" + where);
     }
     auto targets = vpm::resolveArg(w, args["cgroup"].asString());
+    // a fresh chain start selects anew; so does whatever follows a finished kill cycle
+    if (inv.pre_ran) hookedFor.erase(inv.rs);
+    for (auto* e : inv.all)
+      if (e->k == "hook" && e->s == "fire") hookedFor[inv.rs] = {e->p, (uint64_t)e->b};
     for (size_t ai = 0; ai < inv.attempts.size(); ai++) {
       auto& a = inv.attempts[ai];
+      {
+        auto hf = hookedFor.find(inv.rs);
+        if (hf != hookedFor.end() && hf->second.first == a.victim && hf->second.second != 0 && a.victim_ino != hf->second.second) {
+          v.fail("victim '" + a.victim + "' is not the cgroup that was selected: the prekill hook was fired for identity " + std::to_string(hf->second.second) + ", the cgroup now under that path is " + std::to_string(a.victim_ino) + where);
+          continue;
+        }
+      }
       const Cg* vc = w.find(a.victim);
       if (!vc) {
         v.fail("victim " + a.victim + " is not a cgroup of this tick" + where);
